@@ -225,7 +225,9 @@ def find_or_extend(item_list: list[T], key_func: Callable[[T], Hashable] = id) -
             pass
         else:
             for i in indices:
-                if all(
+                # zip() stops at the shorter sequence, so a candidate too close to the end of
+                # the list would compare equal without containing all the items.
+                if i + len(items) <= len(item_list) and all(
                     key_func(a) == key_func(b)
                     for a, b in
                     zip(items, itertools.islice(item_list, i, i + len(items)))
